@@ -1,38 +1,264 @@
 /-
   C20 — windowed source texts report parent-document positions.
-  INTERIM file: proved here — a clipped window records exactly the clipping
-  span's start as its start position and keeps the metrics; navigation on a
-  window only rebases the byte (line and column pass through unchanged).
-  The field-by-field refinement against `Spec.windowSpec` is being added; the
-  recorded finding F13c (wrong column from `previous_position` on the first
-  line of a window that starts mid-line) is replayed by the check.
+
+  English: clip any source text to a span between two aligned character
+  boundaries (`SourceText::clipped`, debug assertions on).  The clip succeeds and
+  is the text under the span, starting at the span's start position
+  (`C20_clipped`).  Asked about any aligned position inside it, or any sub-span
+  inside it, the window answers what the parent document answers, restricted to
+  the window: its text / start / end / full span are the span's, `next_position`,
+  `line_start_position`, `line_end_position`, `next_line_start_position`,
+  `widen_to_line` and `split_lines` are the parent's answers clamped to (or
+  dropped outside) the window.  Every line-ending style, tab width ≥ 1 and
+  character widths; unbounded in the text.
+
+  Known defect F13c (reproduced by the model, see `C20_finding_F13c`): when the
+  window starts in the middle of a line, `previous_position` (stepping back over
+  a tab, or back over a line ending onto the window's first line) re-measures the
+  column from 0 instead of from the window's start column, so it and
+  `previous_line_end_position` can report a wrong *column*.  These two fields are
+  therefore proved only for windows that start at column 0
+  (`C20_window_prev_partial`, `C20_window_prevLineEnd_partial`); the unrestricted
+  statement `C20_window_prev_statement` is refuted (`C20_window_prev_statement_false`).
+
+  Lean: `Fam.Window.model` (the observation the differential driver compares)
+  against `Fam.Window.ofSpec (Spec.windowSpec …)`, field by field.  The window is
+  `t = wa ++ wmid ++ wz`; an inner position is the cut `(wa ++ pre') | (suf' ++ wz)`
+  with `wmid = pre' ++ suf'`; an inner sub-span is `(wa ++ a') | smid | (z' ++ wz)`
+  with `wmid = a' ++ smid ++ z'`.
 -/
-import TephraModel.Fam.Lines
+import TephraProofs.WindowPrev
 
 namespace Tephra.Props
-open Tephra
+open Tephra Tephra.Spec Tephra.LinesPf
 
-/-- Whenever clipping succeeds, the window's start position is the span's start
-and its metrics are the parent's. -/
-theorem C20_clip_start (src win : Source) (sp : Span) (h : src.clipped sp = .ok win) :
-    win.startPosition = sp.s ∧ win.metrics = src.metrics := by
-  unfold Source.clipped at h
-  cases h1 : src.posInBounds sp.s <;> simp [h1, bind, Res.bind] at h
-  cases h2 : src.posInBounds sp.e <;> simp [h2, bind, Res.bind] at h
-  split at h
-  · simp at h
-  · cases h3 : csub sp.s.byte src.offset.byte <;> simp [h3] at h
-    cases h4 : csub sp.e.byte src.offset.byte <;> simp [h4] at h
-    rename_i s e
-    cases h5 : Source.sliceBytes src.text s e <;> simp [h5] at h
-    subst h
-    simp [Source.startPosition]
+/-- `clipped` succeeds on a span between two aligned cuts and yields the window. -/
+theorem C20_clipped (m : Metrics) (_htab : 1 ≤ m.tab) (wa wmid wz : Text)
+    (hwf : Text.WF (wa ++ wmid ++ wz))
+    (hw1 : aligned m wa (wmid ++ wz) = true) (hw2 : aligned m (wa ++ wmid) wz = true) :
+    let P : Source := ⟨wa ++ wmid ++ wz, m, Pos.zero⟩
+    let w : Span := ⟨canon m wa, canon m (wa ++ wmid)⟩
+    P.clipped w = .ok ⟨wmid, m, canon m wa⟩ :=
+  clipped_correct m wa wmid wz hwf hw1 hw2
 
-/-- Non-vacuity: clipping bytes 1..2 of "ab" succeeds. -/
-example : ∃ win, Source.clipped ⟨[⟨97,1,1⟩, ⟨98,1,1⟩], ⟨.lf, 4⟩, Pos.zero⟩ ⟨⟨1,0,1⟩, ⟨2,0,2⟩⟩ = .ok win := by
-  refine ⟨⟨[⟨98,1,1⟩], ⟨.lf, 4⟩, ⟨1,0,1⟩⟩, ?_⟩
-  simp [Source.clipped, Source.posInBounds, Source.endPosition, Tephra.endPosition, bytes, splitAtByte,
-    endSuf, stepSuf, breakAt, lbCodes, stripCodes, stepCh, Pos.pageLe, Pos.zero, csub, Source.sliceBytes,
-    bind, Res.bind]
+/-- The window observation is defined (no panic in `clipped`). -/
+theorem C20_window_defined (m : Metrics) (_htab : 1 ≤ m.tab) (wa wmid wz : Text)
+    (hwf : Text.WF (wa ++ wmid ++ wz))
+    (hw1 : aligned m wa (wmid ++ wz) = true) (hw2 : aligned m (wa ++ wmid) wz = true)
+    (p : Pos) (sub : Span) :
+    ∃ o, Fam.Window.model m (wa ++ wmid ++ wz) ⟨canon m wa, canon m (wa ++ wmid)⟩ p sub = .ok o :=
+  ⟨_, window_model_eq m wa wmid wz hwf hw1 hw2 p sub⟩
+
+section
+variable (m : Metrics) (_htab : 1 ≤ m.tab) (wa wmid wz : Text)
+  (hwf : Text.WF (wa ++ wmid ++ wz))
+  (hw1 : aligned m wa (wmid ++ wz) = true) (hw2 : aligned m (wa ++ wmid) wz = true)
+  (p : Pos) (sub : Span) (o : Fam.Window.Obs)
+  (pre suf sa smid sz : Text)
+
+include hwf hw1 hw2 in
+/-- text, start position, end position and full span of the window are the span's. -/
+theorem C20_window_extent
+    (ho : Fam.Window.model m (wa ++ wmid ++ wz) ⟨canon m wa, canon m (wa ++ wmid)⟩ p sub = .ok o) :
+    let S := Fam.Window.ofSpec (windowSpec m wa wmid wz pre suf sa smid sz)
+    o.text = S.text ∧ o.start = S.start ∧ o.end_ = S.end_ ∧ o.full = S.full := by
+  rw [window_model_eq m wa wmid wz hwf hw1 hw2] at ho
+  injection ho with ho; subst ho
+  have hwf' := (Text.WF_append.mp hwf).1
+  have hal := aligned_of_append_right hw1
+  refine ⟨rfl, rfl, ?_, ?_⟩
+  · exact win_end hwf' hal
+  · exact wfield_full hwf' hal
+
+end
+
+section
+variable (m : Metrics) (_htab : 1 ≤ m.tab) (wa pre' suf' wz : Text)
+  (hwf : Text.WF (wa ++ (pre' ++ suf') ++ wz))
+  (hw1 : aligned m wa (pre' ++ suf' ++ wz) = true)
+  (hw2 : aligned m (wa ++ (pre' ++ suf')) wz = true)
+  (hap : aligned m (wa ++ pre') (suf' ++ wz) = true)
+  (sub : Span) (o : Fam.Window.Obs) (sa smid sz : Text)
+
+include hwf hw1 hw2 hap in
+/-- `next_position`, `line_start_position`, `line_end_position` and
+`next_line_start_position` at an aligned position inside the window. -/
+theorem C20_window_nav
+    (ho : Fam.Window.model m (wa ++ (pre' ++ suf') ++ wz)
+      ⟨canon m wa, canon m (wa ++ (pre' ++ suf'))⟩ (canon m (wa ++ pre')) sub = .ok o) :
+    let S := Fam.Window.ofSpec
+      (windowSpec m wa (pre' ++ suf') wz (wa ++ pre') (suf' ++ wz) sa smid sz)
+    o.next = S.next ∧ o.lineStart = S.lineStart ∧ o.lineEnd = S.lineEnd ∧
+      o.nextLineStart = S.nextLineStart := by
+  rw [window_model_eq m wa (pre' ++ suf') wz hwf hw1 hw2] at ho
+  injection ho with ho; subst ho
+  exact ⟨wfield_next hwf hw2 hap, wfield_lineStart hwf hw1, wfield_lineEnd hwf hw2 hap,
+    wfield_nextLineStart hwf hw2 hap⟩
+
+end
+
+section
+variable (m : Metrics) (_htab : 1 ≤ m.tab) (wa a' smid z' wz : Text)
+  (hwf : Text.WF (wa ++ (a' ++ smid ++ z') ++ wz))
+  (hw1 : aligned m wa (a' ++ smid ++ z' ++ wz) = true)
+  (hw2 : aligned m (wa ++ (a' ++ smid ++ z')) wz = true)
+  (hs1 : aligned m (wa ++ a') (smid ++ (z' ++ wz)) = true)
+  (hs2 : aligned m (wa ++ a' ++ smid) (z' ++ wz) = true)
+  (p : Pos) (o : Fam.Window.Obs) (pre suf : Text)
+
+include hwf hw1 hw2 hs2 in
+/-- `widen_to_line` of a sub-span inside the window: the parent's widening clamped to the
+window. -/
+theorem C20_window_widen
+    (ho : Fam.Window.model m (wa ++ (a' ++ smid ++ z') ++ wz)
+      ⟨canon m wa, canon m (wa ++ (a' ++ smid ++ z'))⟩ p
+      ⟨canon m (wa ++ a'), canon m (wa ++ a' ++ smid)⟩ = .ok o) :
+    o.widen = (Fam.Window.ofSpec
+      (windowSpec m wa (a' ++ smid ++ z') wz pre suf (wa ++ a') smid (z' ++ wz))).widen := by
+  rw [window_model_eq m wa (a' ++ smid ++ z') wz hwf hw1 hw2] at ho
+  injection ho with ho; subst ho
+  exact wfield_widen hwf hw1 hw2 hs2
+
+include hwf hw1 hw2 hs1 hs2 in
+/-- `split_lines` of a sub-span inside the window: the parent's pieces.  The family collects
+with 64 calls of `next()`, hence the bound on the number of lines under the sub-span (the
+lemma `wfield_split` is the same statement for every sufficient fuel). -/
+theorem C20_window_split (hlines : (linesOf m smid).length < 64)
+    (ho : Fam.Window.model m (wa ++ (a' ++ smid ++ z') ++ wz)
+      ⟨canon m wa, canon m (wa ++ (a' ++ smid ++ z'))⟩ p
+      ⟨canon m (wa ++ a'), canon m (wa ++ a' ++ smid)⟩ = .ok o) :
+    o.split = (Fam.Window.ofSpec
+      (windowSpec m wa (a' ++ smid ++ z') wz pre suf (wa ++ a') smid (z' ++ wz))).split := by
+  rw [window_model_eq m wa (a' ++ smid ++ z') wz hwf hw1 hw2] at ho
+  injection ho with ho; subst ho
+  exact wfield_split hwf hs1 hs2 64 (by omega)
+
+include hwf hs1 hs2 in
+/-- The same for any number of `next()` calls that suffices (no bound on the text). -/
+theorem C20_window_split_anyfuel (fuel : Nat) (hfuel : (linesOf m smid).length + 1 ≤ fuel) :
+    Fam.Window.collectSpans fuel (SplitLines.ofSpan
+        ⟨canon m (wa ++ a'), canon m (wa ++ a' ++ smid)⟩ ⟨a' ++ smid ++ z', m, canon m wa⟩) =
+      .ok ((splitSpec m (wa ++ a') smid (z' ++ wz)).map (·.2)) :=
+  wfield_split hwf hs1 hs2 fuel hfuel
+
+end
+
+section
+variable (m : Metrics) (_htab : 1 ≤ m.tab) (wa pre' suf' wz : Text)
+  (hwf : Text.WF (wa ++ (pre' ++ suf') ++ wz))
+  (hw1 : aligned m wa (pre' ++ suf' ++ wz) = true)
+  (hw2 : aligned m (wa ++ (pre' ++ suf')) wz = true)
+  (sub : Span) (o : Fam.Window.Obs) (sa smid sz : Text)
+
+include hwf hw1 hw2 in
+/-- `previous_position` inside a window that starts at column 0 (extra hypothesis `hcol`,
+see finding F13c). -/
+theorem C20_window_prev_partial (hcol : (canon m wa).col = 0)
+    (ho : Fam.Window.model m (wa ++ (pre' ++ suf') ++ wz)
+      ⟨canon m wa, canon m (wa ++ (pre' ++ suf'))⟩ (canon m (wa ++ pre')) sub = .ok o) :
+    o.prev = (Fam.Window.ofSpec
+      (windowSpec m wa (pre' ++ suf') wz (wa ++ pre') (suf' ++ wz) sa smid sz)).prev := by
+  rw [window_model_eq m wa (pre' ++ suf') wz hwf hw1 hw2] at ho
+  injection ho with ho; subst ho
+  exact wfield_prev hcol hwf hw1
+
+include hwf hw1 hw2 in
+/-- `previous_line_end_position` inside a window that starts at column 0 (extra hypothesis
+`hcol`, see finding F13c). -/
+theorem C20_window_prevLineEnd_partial (hcol : (canon m wa).col = 0)
+    (ho : Fam.Window.model m (wa ++ (pre' ++ suf') ++ wz)
+      ⟨canon m wa, canon m (wa ++ (pre' ++ suf'))⟩ (canon m (wa ++ pre')) sub = .ok o) :
+    o.prevLineEnd = (Fam.Window.ofSpec
+      (windowSpec m wa (pre' ++ suf') wz (wa ++ pre') (suf' ++ wz) sa smid sz)).prevLineEnd := by
+  rw [window_model_eq m wa (pre' ++ suf') wz hwf hw1 hw2] at ho
+  injection ho with ho; subst ho
+  exact wfield_prevLineEnd hcol hwf hw1
+
+end
+
+/-- The unrestricted statement for `previous_position` (no column hypothesis).  It does NOT
+hold for the model (nor for the real code): see `C20_window_prev_statement_false`. -/
+def C20_window_prev_statement : Prop :=
+  ∀ (m : Metrics), 1 ≤ m.tab → ∀ (wa pre' suf' wz : Text),
+    Text.WF (wa ++ (pre' ++ suf') ++ wz) →
+    aligned m wa (pre' ++ suf' ++ wz) = true →
+    aligned m (wa ++ (pre' ++ suf')) wz = true →
+    aligned m (wa ++ pre') (suf' ++ wz) = true →
+    ∀ (sub : Span) (o : Fam.Window.Obs) (sa smid sz : Text),
+    Fam.Window.model m (wa ++ (pre' ++ suf') ++ wz)
+      ⟨canon m wa, canon m (wa ++ (pre' ++ suf'))⟩ (canon m (wa ++ pre')) sub = .ok o →
+    o.prev = (Fam.Window.ofSpec
+      (windowSpec m wa (pre' ++ suf') wz (wa ++ pre') (suf' ++ wz) sa smid sz)).prev
+
+/-- Finding F13c, concretely: parent `a⇥` (LF, tab 4), window = bytes 1..2 (the tab), asked at
+the window's end.  The window's `previous_position` answers (1, line 0, column 0); the
+parent's answer — and the spec's — is (1, line 0, column 1). -/
+theorem C20_finding_F13c :
+    let m : Metrics := ⟨.lf, 4⟩
+    let wa : Text := [⟨97, 1, 1⟩]
+    let wmid : Text := [⟨9, 1, 0⟩]
+    let w : Span := ⟨⟨1, 0, 1⟩, ⟨2, 0, 4⟩⟩
+    w = ⟨canon m wa, canon m (wa ++ wmid)⟩ ∧
+    (∃ o, Fam.Window.model m (wa ++ wmid ++ []) w ⟨2, 0, 4⟩ w = .ok o ∧
+      o.prev = .ok (some ⟨1, 0, 0⟩)) ∧
+    (Fam.Window.ofSpec (windowSpec m wa wmid [] (wa ++ wmid) [] wa wmid [])).prev =
+      .ok (some ⟨1, 0, 1⟩) := by
+  have hc1 : canon ⟨.lf, 4⟩ [⟨97, 1, 1⟩] = ⟨1, 0, 1⟩ := by
+    simp [canon, canonFrom, linesOf, breakAt, lbCodes, stripCodes, colWidth, bytes, Pos.zero]
+  have hc2 : canon ⟨.lf, 4⟩ ([⟨97, 1, 1⟩] ++ [⟨9, 1, 0⟩]) = ⟨2, 0, 4⟩ := by
+    simp [canon, canonFrom, linesOf, breakAt, lbCodes, stripCodes, colWidth, bytes, Pos.zero]
+  refine ⟨by rw [hc1, hc2], ?_, ?_⟩
+  · have hwf : Text.WF ([⟨97, 1, 1⟩] ++ [⟨9, 1, 0⟩] ++ ([] : Text)) := by
+      intro c hc; simp at hc; rcases hc with rfl | rfl <;> decide
+    have := window_model_eq ⟨.lf, 4⟩ [⟨97, 1, 1⟩] [⟨9, 1, 0⟩] [] hwf (by decide) (by decide)
+      ⟨2, 0, 4⟩ ⟨⟨1, 0, 1⟩, ⟨2, 0, 4⟩⟩
+    rw [hc1, hc2] at this
+    exact ⟨_, this, finding_F13c_prev⟩
+  · simp only [Fam.Window.ofSpec, windowSpec, navSpec, lastUnit]
+    simp [breakBefore, lbCodes, stripCodes, keepIfIn]
+    simp [canon, canonFrom, linesOf, breakAt, lbCodes, stripCodes, colWidth, bytes, Pos.zero]
+
+/-- Finding F13c refutes the unrestricted `previous_position` statement. -/
+theorem C20_window_prev_statement_false : ¬ C20_window_prev_statement := by
+  intro h
+  have hc1 : canon ⟨.lf, 4⟩ [⟨97, 1, 1⟩] = ⟨1, 0, 1⟩ := by
+    simp [canon, canonFrom, linesOf, breakAt, lbCodes, stripCodes, colWidth, bytes, Pos.zero]
+  have hc2 : canon ⟨.lf, 4⟩ ([⟨97, 1, 1⟩] ++ [⟨9, 1, 0⟩]) = ⟨2, 0, 4⟩ := by
+    simp [canon, canonFrom, linesOf, breakAt, lbCodes, stripCodes, colWidth, bytes, Pos.zero]
+  have hwf : Text.WF ([⟨97, 1, 1⟩] ++ ([⟨9, 1, 0⟩] ++ []) ++ ([] : Text)) := by
+    intro c hc; simp at hc; rcases hc with rfl | rfl <;> decide
+  have hm := window_model_eq ⟨.lf, 4⟩ [⟨97, 1, 1⟩] ([⟨9, 1, 0⟩] ++ []) [] hwf (by decide) (by decide)
+    (canon ⟨.lf, 4⟩ ([⟨97, 1, 1⟩] ++ [⟨9, 1, 0⟩])) ⟨Pos.zero, Pos.zero⟩
+  have := h ⟨.lf, 4⟩ (by decide) [⟨97, 1, 1⟩] [⟨9, 1, 0⟩] [] [] hwf (by decide) (by decide)
+    (by decide) ⟨Pos.zero, Pos.zero⟩ _ [⟨97, 1, 1⟩] [⟨9, 1, 0⟩] [] hm
+  have hspec := C20_finding_F13c.2.2
+  simp only [List.append_nil] at this hspec
+  rw [hspec] at this
+  simp only [winObs, hc1, hc2] at this
+  rw [finding_F13c_prev] at this
+  simp at this
+
+/-- Non-vacuity: CRLF parent `ab⏎cd`, window = `b⏎c` (starts mid-line at column 1), inner cut
+after the line ending: all hypotheses of the theorems above hold. -/
+example :
+    let m : Metrics := ⟨.crlf, 4⟩
+    let wa : Text := [⟨97, 1, 1⟩]
+    let pre' : Text := [⟨98, 1, 1⟩, ⟨13, 1, 0⟩, ⟨10, 1, 0⟩]
+    let suf' : Text := [⟨99, 1, 1⟩]
+    let wz : Text := [⟨100, 1, 1⟩]
+    1 ≤ m.tab ∧ Text.WF (wa ++ (pre' ++ suf') ++ wz) ∧
+      aligned m wa (pre' ++ suf' ++ wz) = true ∧ aligned m (wa ++ (pre' ++ suf')) wz = true ∧
+      aligned m (wa ++ pre') (suf' ++ wz) = true ∧ (canon m wa).col ≠ 0 := by
+  refine ⟨by decide, ?_, by decide, by decide, by decide, ?_⟩
+  · intro c hc; simp at hc; rcases hc with rfl | rfl | rfl | rfl | rfl | rfl <;> decide
+  · simp [canon, canonFrom, linesOf, breakAt, lbCodes, stripCodes, colWidth, bytes, Pos.zero]
+
+/-- Owned / borrowed round trip: a source text is determined by its text, metrics and start
+offset, so every window answer is the same for two sources agreeing on these three. -/
+theorem C20_owned_roundtrip (s1 s2 : Source) (ht : s1.text = s2.text)
+    (hm : s1.metrics = s2.metrics) (ho : s1.offset = s2.offset) :
+    s1 = s2 ∧ ∀ p sub, winObs s1 p sub = winObs s2 p sub := by
+  have := Source.ext' ht hm ho
+  exact ⟨this, fun p sub => by rw [this]⟩
 
 end Tephra.Props
